@@ -52,7 +52,7 @@ type FailCase struct {
 	StaleCache bool `json:"stale_cache,omitempty"`
 }
 
-var failNames = []string{"alpha", "bravo", "charlie", "delta"}
+var failNames = []string{"alpha", "Alpha", "bravo", "ALPHA"} // task names are case-sensitive: three different tasks share their letters
 var failStatuses = []int{1, 2, 3, 42, 126, 127, 255}
 var failFlagSets = [][]string{nil, {"--quiet"}, {"--json"}, {"--force"}, {"--quiet", "--force"}, {"--json", "--force"}, {"--quiet", "--json"}, {"--json", "--quiet", "--force"}}
 
@@ -90,6 +90,12 @@ func genFailBody(t *rapid.T) FailCase {
 			}
 			ft.Cmds = append(ft.Cmds, st)
 			ft.How = append(ft.How, rapid.SampledFrom([]string{"", "", "ext", "sig", "false"}).Draw(t, "how"))
+			if st != 0 && k < nc-1 && rapid.IntRange(0, 5).Draw(t, "then_unrunnable") == 0 {
+				// the next command line is not valid shell: spok gives up on the task with an error of its own
+				ft.Cmds = append(ft.Cmds, -1)
+				ft.How = append(ft.How, "")
+				k++
+			}
 		}
 		c.Tasks = append(c.Tasks, ft)
 	}
@@ -104,6 +110,13 @@ func genFailBody(t *rapid.T) FailCase {
 	c.Request = append([]string(nil), perm[:k]...)
 	c.Flags = rapid.SampledFrom(failFlagSets).Draw(t, "flags")
 	c.Prime = rapid.Bool().Draw(t, "prime")
+	for _, ft := range c.Tasks {
+		for _, st := range ft.Cmds {
+			if st == -1 {
+				c.Prime = false // such a line stops a run whether or not the failures are armed
+			}
+		}
+	}
 	switch rapid.IntRange(0, 5).Draw(t, "via") {
 	case 4:
 		c.Via = "clean"
@@ -141,7 +154,9 @@ func (c FailCase) source() string {
 		args = append(args, t.Deps...)
 		fmt.Fprintf(&b, "task %s(%s) {\n", t.Name, strings.Join(args, ", "))
 		for ci, st := range t.Cmds {
-			if st == 0 {
+			if st == -1 {
+				b.WriteString("    echo \"never closed\n")
+			} else if st == 0 {
 				fmt.Fprintf(&b, "    echo %s >> $LOG\n", marker(ti, ci))
 			} else {
 				how := ""
@@ -286,6 +301,9 @@ func execFail(s *ev.Shard, b *sandbox.Box, c FailCase) *rp.Fail {
 	anyGone := false
 	for _, t := range c.Tasks {
 		anyGone = anyGone || t.GoneDep
+		for _, st := range t.Cmds {
+			anyGone = anyGone || st == -1 // a line that stops the whole run: which tasks the next run reaches is not fixed
+		}
 	}
 	if len(F) == 1 && !anyGone {
 		// a single failing task must be executed again (its first command is logged again); with a
